@@ -82,6 +82,8 @@ Definition join (g m : name) : name := g ++ DASH :: m.  (* f"{g}-{m}" *)
 Definition pairs (groups keys : list name) : list (name * name) :=
   flat_map (fun g => map (pair g) keys) groups.           (* for g in groups for m in keys *)
 
+Definition missing_cell : name := [].           (* the "" default of a key the result lacks *)
+
 Section Layout.
   Variable print : fval -> name.                  (* str(value) as csv.writer emits it; None -> '' *)
   Variable parse : name -> option fval.           (* float(text); None = ValueError *)
@@ -90,7 +92,7 @@ Section Layout.
     SUBJ :: map (fun p => join (fst p) (snd p)) (pairs groups keys).
   (* mvalue = result_dict[e] if e in result_dict else "" *)
   Definition cell_of (d : rdict) (k : name) : name :=
-    match alookup k d with Some v => print v | None => [] end.
+    match alookup k d with Some v => print v | None => missing_cell end.
   Definition row (groups keys : list name) (sr : subject) : list name :=
     fst sr :: map (fun p => cell_of (snd sr (fst p)) (snd p)) (pairs groups keys).
   (* evaluate() skips a subject name that is already in the buffer file; the header cell is not a name *)
@@ -172,3 +174,25 @@ Definition value_of (d : rdict) (m : name) : option Q :=
   match alookup m d with Some v => conv v | None => None end.
 Definition table_of (subs : list subject) : rowtab :=
   map (fun sr => (fst sr, fun g m => value_of (snd sr g) m)) subs.
+
+(* ---------------------------------------------------------------- reference cell codec (engine)
+   The engine runs the model with this stand-in for str()/float(): a finite value q is the "text"
+   [35; numerator; denominator]; the harness maps every real cell text t to this form through Python's
+   own float(t), so the abstraction is exactly `parse`.  It satisfies the codec hypotheses
+   (Proofs/TsvFacts.v: toy_codec_ok), which shows that they are satisfiable. *)
+Definition toy_print (v : fval) : name :=
+  match v with
+  | FNone => []
+  | FNan => [110; 97; 110]
+  | FInf => [105; 110; 102]
+  | FNInf => [45; 105; 110; 102]
+  | FQ q => [35; Qnum q; Zpos (Qden q)]
+  end.
+Definition toy_parse (c : name) : option fval :=
+  match c with
+  | [35; n; d] => if 0 <? d then Some (FQ (Qmake n (Z.to_pos d))) else None
+  | [110; 97; 110] => Some FNan
+  | [105; 110; 102] => Some FInf
+  | [45; 105; 110; 102] => Some FNInf
+  | _ => None
+  end.
